@@ -1383,6 +1383,7 @@ func (m *Manager) Encrypt(keyType CryptoKeyType, in []byte) ([]byte, error) {
 	if err != nil {
 		return nil, err
 	}
+	verifPoint("crypt.keyselected")
 
 	encrypted, err := cryptoKey.Encrypt(in)
 	if err != nil {
@@ -1402,6 +1403,7 @@ func (m *Manager) Decrypt(keyType CryptoKeyType, in []byte) ([]byte, error) {
 	if err != nil {
 		return nil, err
 	}
+	verifPoint("crypt.keyselected")
 
 	decrypted, err := cryptoKey.Decrypt(in)
 	if err != nil {
